@@ -40,7 +40,7 @@ pub fn same_up_to_ids(a: &[Vec<Rec>], b: &[Vec<Rec>], what: &str) -> Result<(), 
 }
 
 pub fn check_isolation(h: &History) -> CaseResult {
-    let flags = Flags { c01: true, c03: false, c13: false, margins: true };
+    let flags = Flags { c01: true, c03: false, c13: false, margins: true, group_batches: false };
     // predict / skip of each scene, plus the tracker-wide operations that move the collection of
     // expired tracks around (they must not change any scene's grouping either)
     let mut full = h.clone();
@@ -70,7 +70,7 @@ pub fn check_isolation(h: &History) -> CaseResult {
             }
         }
         proj.ops = proj_ops;
-        let single = run_monitored(&proj, Flags { c01: false, c03: false, c13: false, margins: true })?;
+        let single = run_monitored(&proj, Flags { c01: false, c03: false, c13: false, margins: true, group_batches: false })?;
         let a: Vec<Vec<Rec>> = inter.records.iter().filter(|(k, _)| scene_of(&full.ops[*k]) == Some(*s)).map(|(_, r)| r.clone()).collect();
         let b: Vec<Vec<Rec>> = single.records.iter().map(|(_, r)| r.clone()).collect();
         ensure!(a.len() == b.len(), "isolation-call-count", "scene {}: {} calls in the interleaved run, {} in the projection", s, a.len(), b.len());
